@@ -499,6 +499,8 @@ impl<'a> G<'a> {
             self.cur = Some(k);
             self.callable = k;
             let mut body = vec![];
+            // the result is assigned before the recursive call and nowhere after it
+            let mut result_before_only = false;
             if p.is_static {
                 // a counter that must persist from one call to the next, wherever the calls come from
                 self.feat("static");
@@ -515,7 +517,15 @@ impl<'a> G<'a> {
                 self.callable = k + 1;
                 let c = self.call_text(k, 0);
                 self.callable = k;
-                if p.is_fn {
+                if p.is_fn && self.rng.chance(1, 2) {
+                    // the result is assigned BEFORE the recursive call, whose value goes to a local: the activation returns
+                    // what it assigned itself, whatever the inner activations did with their results
+                    self.feat("recursion-result-before-call");
+                    let e = self.expr(p.ret, 1);
+                    body.push(format!("    {} = {}", p.name, e));
+                    body.push(format!("    RV{} = {}", sfx(p.ret), c));
+                    result_before_only = self.rng.chance(1, 2);
+                } else if p.is_fn {
                     if p.ret == T::Str {
                         body.push(format!("    {} = {} + \"r\"", p.name, c));
                     } else {
@@ -536,7 +546,9 @@ impl<'a> G<'a> {
             for _ in 0..m {
                 self.stmt(2, &mut body, "  ");
             }
-            if p.is_fn && p.is_static && self.rng.chance(1, 2) {
+            if result_before_only {
+                self.feat("recursion-result-before-call-only");
+            } else if p.is_fn && p.is_static && self.rng.chance(1, 2) {
                 // a STATIC function that assigns its result on some calls only: the other calls must yield zero / ""
                 self.feat("static-function-assigns-sometimes");
                 let e = self.expr(p.ret, 1);
@@ -772,11 +784,16 @@ fn main() {
         }
     }
     let mut shrunk = 0;
+    // the property-level failures have their own shrinking budget (the model-level ones must not use it up)
+    let mut shrunk_ref = 0;
     for (k, c) in cases.iter().enumerate() {
         let real = &reals[k];
         let okind = real.outcome.split(' ').take(2).collect::<Vec<_>>().join(" ");
         rep.case(Some(format!("{}|{}", c.feats, okind)));
         rep.bump(&format!("outcome.{}", okind));
+        for f in c.feats.split('+').filter(|f| f.starts_with("recursion") || f.starts_with("static")) {
+            rep.bump(&format!("feature.{}", f));
+        }
         if k < 2 || k == cases.len() - 1 {
             rep.sample(J::s(c.text.clone()));
         }
@@ -859,8 +876,8 @@ fn main() {
                 } else if rf.0 == "outOfFuel" {
                     rep.bump("ref.discarded-fuel");
                 } else if let Some(what) = disagree(real, &rf) {
-                    let text = if shrunk < 4 {
-                        shrunk += 1;
+                    let text = if shrunk_ref < 3 {
+                        shrunk_ref += 1;
                         shrink(&c.text, "ref", what)
                     } else {
                         c.text.clone()
